@@ -144,10 +144,11 @@ def make_sym_class():
     return Sym
 
 
-def ref_eval(stack, xrow, cs):
+def ref_eval(stack, xrow, cs, info=None, dtype=None):
     """independent recursive float evaluator (oracle)"""
     import numpy as np
     memo = {}
+    fl = np.float64 if dtype is None else dtype
 
     def ev(i):
         if i in memo:
@@ -155,11 +156,11 @@ def ref_eval(stack, xrow, cs):
         n, p1, p2 = stack[i]
         with np.errstate(all="ignore"):
             if n == -1:
-                v = np.float64(p1)
+                v = fl(p1)
             elif n == 0:
-                v = np.float64(xrow[p1])
+                v = fl(xrow[p1])
             elif n == 1:
-                v = np.float64(cs[p1])
+                v = fl(cs[p1])
             elif n in ARITY2:
                 a, b = ev(p1), ev(p2)
                 v = {2: lambda: a + b, 3: lambda: a - b, 4: lambda: a * b, 5: lambda: np.divide(a, b),
@@ -170,7 +171,11 @@ def ref_eval(stack, xrow, cs):
                      12: lambda t: np.sqrt(np.abs(t)), 14: np.sinh, 15: np.cosh}[n](a)
         memo[i] = v
         return v
-    return ev(len(stack) - 1)
+    out = ev(len(stack) - 1)
+    if info is not None:
+        # were all sub-expressions the result depends on finite real numbers?
+        info["all_finite"] = all(math.isfinite(float(v)) for v in memo.values())
+    return out
 
 
 def impl_main(payload):
@@ -201,7 +206,10 @@ def impl_main(payload):
                 for r in range(M):
                     v = res.reshape(-1)[r] if res.size == M else res.reshape(-1)[0]
                     enc = Sym.lift(v).enc
-                    if enc[:3] == [4, 0, 1]:      # np.ones(...) * scalar output: drop the factor 1.0 of _reshape_output
+                    # _reshape_output turns a scalar result (no utilized row loads X) into np.ones(...) * scalar: drop that
+                    # factor 1.0 - and only that one (a root command 1 * f(X) keeps its factor)
+                    scalar_result = not any(u and int(row[0]) == 0 for u, row in zip(sb.get_utilized_commands(st), st))
+                    if scalar_result and enc[:3] == [4, 0, 1]:
                         enc = enc[3:]
                     out += [-7777] + enc
             elif c["kind"] == 1:
@@ -291,9 +299,18 @@ def impl_main(payload):
         for i, j in cmap.items():
             st2[i] = [1, j, j]
         for r in range(M):
-            want = ref_eval(st2, x[r], cs)
+            info = {}
+            want = ref_eval(st2, x[r], cs, info)
             gv = float(np.asarray(got).reshape(-1)[r])
-            if not math.isfinite(want):
+            if math.isfinite(want) and not info["all_finite"]:
+                # a sub-expression is undefined / overflows (e.g. 13/0), so the expression has no real value here; IEEE
+                # propagation may still end in a finite number (x/inf = 0).  The property asks for a non-finite entry, the
+                # IEEE value is tolerated, anything else is an arbitrary finite number
+                orc["nonfinite"] += 1
+                if math.isfinite(gv) and not (abs(gv - want) <= 1e-9 * (1 + abs(want))):
+                    orc["viol"].append("a sub-expression is undefined at %r; evaluation returned %r, neither non-finite nor the IEEE value %r; stack %r"
+                                       % (x[r].tolist(), gv, float(want), base))
+            elif not math.isfinite(want):
                 orc["nonfinite"] += 1
                 if math.isfinite(gv):
                     orc["viol"].append("expression is undefined/overflows at %r (reference %r) but evaluation returned the finite number %r; stack %r"
